@@ -29,8 +29,16 @@ MU == 4        \* name of the POI (a normfactor)
 \* ---- seed workspaces (names: channels 1..3, samples 1..4, parameters as in harness/names.py)
 Mod(n, t, d1, d2) == [name |-> n, type |-> t, d1 |-> d1, d2 |-> d2]
 Rs(s) == [i \in DOMAIN s |-> R(s[i])]
+SeedSpec3 ==      \* two backgrounds sharing a staterror (one of them with an EMPTY bin that still declares an uncertainty) and a normsys
+    [channels |-> <<
+        [name |-> 1, samples |-> <<
+            [name |-> 2, data |-> Rs(<<6, 9>>), mods |-> <<Mod(MU, NORMFACTOR, <<>>, <<>>)>>],
+            [name |-> 1, data |-> Rs(<<10, 0>>), mods |-> <<Mod(21, STATERROR, Rs(<<3, 3>>), <<>>), Mod(7, NORMSYS, <<RN(9, 10)>>, <<RN(6, 5)>>)>>],
+            [name |-> 3, data |-> Rs(<<20, 25>>), mods |-> <<Mod(21, STATERROR, Rs(<<4, 4>>), <<>>), Mod(7, NORMSYS, <<RN(9, 10)>>, <<RN(6, 5)>>)>>] >>] >>,
+     pars |-> <<>>, poi |-> MU]
 SeedSpec(k) ==
-  CASE k = 1 ->   \* two mergeable backgrounds (identical modifier sets), a second channel with a shapesys
+  CASE k = 3 -> SeedSpec3
+    [] k = 1 ->   \* two mergeable backgrounds (identical modifier sets), a second channel with a shapesys
     [channels |-> <<
         [name |-> 1, samples |-> <<
             [name |-> 2, data |-> Rs(<<5, 8>>), mods |-> <<Mod(MU, NORMFACTOR, <<>>, <<>>)>>],
@@ -136,8 +144,12 @@ SameMods(a, b) ==
   /\ Len(a.mods) = Len(b.mods)
   /\ \A q \in DOMAIN a.mods : \E r \in DOMAIN b.mods :
         /\ a.mods[q].name = b.mods[r].name /\ a.mods[q].type = b.mods[r].type
-        /\ (a.mods[q].type # HISTOSYS => a.mods[q] = b.mods[r])
-        /\ a.mods[q].type \in {HISTOSYS, NORMSYS, NORMFACTOR, LUMI}
+        /\ (a.mods[q].type \notin {HISTOSYS, STATERROR} => a.mods[q] = b.mods[r])
+        /\ a.mods[q].type \in {HISTOSYS, NORMSYS, NORMFACTOR, LUMI, STATERROR}
+        \* MC-statistical uncertainties add in quadrature: exact only on Pythagorean pairs (the seeds are chosen so)
+        /\ (a.mods[q].type = STATERROR => \A bb \in DOMAIN a.mods[q].d1 :
+                RIsInt(a.mods[q].d1[bb]) /\ RIsInt(b.mods[r].d1[bb]) /\
+                \E kk \in 0..60 : kk * kk = a.mods[q].d1[bb][1] * a.mods[q].d1[bb][1] + b.mods[r].d1[bb][1] * b.mods[r].d1[bb][1])
 MergeSamples(i, j1, j2) ==
   /\ Room /\ i \in DOMAIN w.channels /\ j1 \in DOMAIN w.channels[i].samples /\ j2 \in DOMAIN w.channels[i].samples /\ j1 < j2
   /\ LET a == w.channels[i].samples[j1]  b == w.channels[i].samples[j2] IN
@@ -146,6 +158,9 @@ MergeSamples(i, j1, j2) ==
             merged == [a EXCEPT !.data = VAdd(a.data, b.data),
                                 !.mods = [q \in DOMAIN a.mods |-> IF a.mods[q].type = HISTOSYS
                                             THEN [a.mods[q] EXCEPT !.d1 = VAdd(@, MB(a.mods[q]).d1), !.d2 = VAdd(@, MB(a.mods[q]).d2)]
+                                            ELSE IF a.mods[q].type = STATERROR
+                                            THEN [a.mods[q] EXCEPT !.d1 = [bb \in DOMAIN @ |->
+                                                     R(CHOOSE kk \in 0..60 : kk * kk = @[bb][1] * @[bb][1] + MB(a.mods[q]).d1[bb][1] * MB(a.mods[q]).d1[bb][1])]]
                                             ELSE a.mods[q]]]
         IN w' = [w EXCEPT !.channels[i].samples = [j \in 1..(Len(@) - 1) |->
                       IF j = j1 THEN merged ELSE IF j < j2 THEN @[j] ELSE @[j + 1]]]
@@ -213,6 +228,14 @@ BinsPartition ==
 \* constrained parameters: those of w0 (renamed) plus the null systematics
 ConstraintsPreserved ==
   {pmap[n] : n \in {m \in ParamNames(w) : pmap[m] # 0}} = ParamNames(W0)
+
+\* constraint widths / Poisson factors of every surviving constrained parameter are those of the original
+\* (compared only while the bin structure of bin-wise parameters is untouched: splits exclude such channels)
+WidthsPreserved ==
+  LET c0 == MkCfg(W0)  c1 == MkCfg(w) IN
+  \A n \in ParamNames(w) : pmap[n] # 0 /\ Constrained(c1.ptype[n]) =>
+      LET a == ParamInfo(w, c1, n)  b == ParamInfo(W0, c0, pmap[n]) IN
+      a.type = b.type /\ a.var = b.var /\ a.tau = b.tau /\ a.fixed = b.fixed
 
 PHash == LET RECURSIVE H(_)
              A(e) == (IF "old" \in DOMAIN e THEN e.old * 3 + e.new ELSE 0) + (IF "ch" \in DOMAIN e THEN e.ch * 5 ELSE 0)
